@@ -34,7 +34,8 @@ SPEC = {
     ("C13", "try_remove_top_route_pops_iff_own", "C13_own_popped_iff"),
     ("C13", "next_hop_by_route_pops_iff_not_keep", "C13_next_hop_popped_iff_not_keep"),
     ("C13", "C13_route"), ("C13", "C13_route_decoded"), ("C13", "route_view_grammar", "C13_route_view_grammar"),
-    ("C13", "route_header_text", "C13_route_header_text")]),
+    ("C13", "route_header_text", "C13_route_header_text"),
+    ("C13", "C13_keep_setting_decides"), ("C13", "C13_keep_env_default")]),
  "C03": (["C06", "C13", "C03"], [
     ("C03", "C03_at_most_one"), ("C03", "C03_at_most_one_udp"), ("C03", "C03_at_most_one_tcp"), ("C03", "C03_choice"),
     ("C03", "C03_choice_outputs"), ("C03", "C03_non_sip_route"), ("C03", "C03_backend_member"),
